@@ -69,3 +69,24 @@ add("C15", "fault_enumeration",
     "runtime monitor with fault enumeration: every delivery subset (2^n for n<=10) of an earlier frame, garbage and second lossy frames as history, twin against a fresh receiver on the following intact frame",
     "All 2^n loss subsets for trains of up to 10 packets over 2.5k/250k frame pairs per codec (about 1M / 100M injected loss patterns).",
     "In-order delivery; the later frame is complete; H264 trains from the independent encoder, AV1 trains from the library payloader.")
+
+add("C08", "exploration",
+    "runtime monitor: recover() guard, MTU bound, input-immutability compare, address-range overlap monitor (fragments + hooked retained state vs all caller buffers), scribble twin across calls, Go race detector tripwire",
+    "Every payloader/option x every MTU 0-16 and 60k/6M instance runs of 1-4 calls over hostile, seeded and valid inputs; 2.5k/250k race-build tripwire runs.",
+    "VP9 with nil InitialPictureIDFn is random by design (no twin compare); the race tripwire is secondary to the overlap and twin monitors.")
+add("C09", "exploration",
+    "runtime monitor: recover() guard, fresh-vs-reused receiver twin (result, error-ness, metadata), scribble twin + address-range overlap monitor on hooked retained state, exhaustive short strings",
+    "Every byte string of length <=2 (thorough <=3) through 21 persistent receivers; 90k/9M hostile sequences of 1-20 payloads; race-build tripwire on the stateful receivers.",
+    "Metadata = exported fields / accessor values; compared when the fresh decode succeeds.")
+add("C11", "exploration",
+    "runtime monitor: concatenation oracle + shadow picture-id counter (33 000-frame instance runs across 128 and the 15-bit wrap) + independent RFC 7741 descriptor parser/encoder; exhaustive flag space for the decoder",
+    "All 2^10 flag combinations x PID x RSV with boundary field values and every truncation; 8k/800k short and 8/200 long instance runs.",
+    "Absent fields are not compared; a complete descriptor with zero payload bytes may be rejected.")
+add("C12", "exploration",
+    "runtime monitor: independent VP9 uncompressed-header bit-writer and RFC 9628 descriptor encoder/parser; concatenation oracle; shadow picture-id counter",
+    "30k/3M payloader instances, 60k/6M headers (each with every prefix), 120k/12M descriptors (each with every truncation).",
+    "Width 65536 excluded from the SS clause; show-existing frames judged for losslessness/B/E/id only.")
+add("C14", "exploration",
+    "runtime monitor: differential against an independent RFC 7798 parser/reassembler and encoder; exhaustive 2^16 payload headers, 2^8 FU headers, 2^16 PACI words, 2^24 TSCI triples (2^18 sampled in quick)",
+    "60k/6M unit sequences and 60k/6M independently encoded payloads with every truncation; one open known finding (DONL in every FU, pinned by an existing test).",
+    "DONL/DOND values are not judged, only placement; truncation judged inside the mandatory part.")
